@@ -83,10 +83,17 @@ pub struct PState {
     pub closes: usize,
 }
 
+/// Class of the recorded C02 finding (known_findings.json).
+pub const FREED_CLASS: &str = "idle-holder-not-asked-for-a-freed-piece";
+
 #[derive(Default)]
 pub struct Mon {
     pub p: Vec<PState>,
     pub had: Vec<bool>,
+    /// Per piece: it was reserved for some connection and became Missing again (its holder choked
+    /// us or left) -- kept until it is reserved or owned again.
+    pub freed: Vec<bool>,
+    pub prev_reserved: Vec<bool>,
     pub ticks: usize,
     pub elapsed_ms: u64,
 }
@@ -108,6 +115,21 @@ impl Swarm {
     }
 
     fn sync(&self, w: &FullWorld, mon: &mut Mon) {
+        if let Some(snap) = w.snap() {
+            let n = snap.statuses.len();
+            mon.freed.resize(n, false);
+            mon.prev_reserved.resize(n, false);
+            for k in 0..n {
+                let reserved = matches!(snap.statuses[k], Status::Reserved(_));
+                if snap.statuses[k] == Status::Missing && mon.prev_reserved[k] {
+                    mon.freed[k] = true;
+                }
+                if snap.statuses[k] != Status::Missing {
+                    mon.freed[k] = false;
+                }
+                mon.prev_reserved[k] = reserved;
+            }
+        }
         for i in 0..self.owners.len() {
             if mon.p.len() <= i {
                 mon.p.push(PState::default());
@@ -318,6 +340,7 @@ impl Swarm {
         if !rdest::verif::fs_pending().is_empty() {
             return None;
         }
+        let mut deferred: Option<(&'static str, String)> = None;
         for i in 0..self.owners.len() {
             if !self.live(w, i) {
                 continue;
@@ -333,10 +356,18 @@ impl Swarm {
                     let owned: Vec<usize> = (0..self.owners[i].len()).filter(|k| self.owners[i][*k]).collect();
                     let announced: Vec<usize> = if self.by_have[i] { owned.iter().cloned().take(mon.p[i].announced).collect() } else if mon.p[i].bitfield { owned.clone() } else { vec![] };
                     if let Some(k) = announced.iter().find(|k| snap.statuses[**k] == Status::Missing) {
-                        return Some((
-                            "unchoking-peer-with-a-wanted-piece-left-idle",
-                            format!("peer {} unchoked us and announced piece {}, which the client lacks and nobody is fetching, but no request is outstanding on that connection; {}", i, k, w.session_key()),
-                        ));
+                        // a piece that had been reserved for another connection and was freed again
+                        // (its holder choked us or left) while this peer sat idle: recorded finding
+                        let freed = mon.freed.get(*k).cloned().unwrap_or(false);
+                        let v = (
+                            if freed { FREED_CLASS } else { "unchoking-peer-with-a-wanted-piece-left-idle" },
+                            format!("peer {} unchoked us and announced piece {}, which the client lacks and nobody is fetching{}, but no request is outstanding on that connection; {}", i, k, if freed { " (it had been reserved for another connection, whose peer choked us or left)" } else { "" }, w.session_key()),
+                        );
+                        if !freed {
+                            return Some(v);
+                        }
+                        // the recorded finding: everything else is looked at first
+                        deferred = deferred.or(Some(v));
                     }
                 }
             }
@@ -354,7 +385,7 @@ impl Swarm {
                 }
             }
         }
-        None
+        deferred
     }
 
     fn health(&self, w: &FullWorld) -> Option<(&'static str, String)> {
@@ -377,6 +408,9 @@ impl Sys for Swarm {
     type Mon = Mon;
     fn name(&self) -> String {
         self.label.to_string()
+    }
+    fn tolerate(&self, class: &str) -> bool {
+        class == FREED_CLASS
     }
     fn explore_choices(&self) -> bool {
         self.tie_breaks
@@ -569,6 +603,9 @@ impl Sys for Swarm {
         if self.gated {
             k.push_str(&format!(" fs-held={:?}", rdest::verif::fs_pending()));
         }
+        if mon.freed.iter().any(|f| *f) {
+            k.push_str(&format!(" freed={:?}", mon.freed.iter().enumerate().filter(|(_, f)| **f).map(|(i, _)| i).collect::<Vec<_>>()));
+        }
         for i in 0..self.owners.len() {
             let p = &mon.p[i];
             k.push_str(&format!(" [{} pend={:?} live={} gen={} hs={} bf={} an={} un={} ck={} in={} out={:?} cl={}", i, if self.gated { w.pending(i) } else { vec![] }, self.live(w, i), p.generation.min(3), p.hs, p.bitfield, p.announced, p.unchoked, p.choke_used, p.interest, p.outstanding, p.closes));
@@ -607,7 +644,9 @@ impl Sys for Swarm {
                 return Some(v);
             }
             if let Some(v) = self.hanging(w, mon) {
-                return Some(v);
+                if v.0 != FREED_CLASS {
+                    return Some(v);
+                }
             }
             if self.complete(w).is_ok() {
                 break;
@@ -866,6 +905,11 @@ pub fn scenarios(thorough: bool) -> Vec<(Swarm, usize)> {
         (duplicate_address(), 8),
         // a re-announce lists a connected address followed by a new one
         (Swarm { label: "relisted-then-new", owners: vec![own(3, &[0, 1]), own(3, &[2]), own(3, &[])], may_close: vec![false, false, true], by_have: vec![false, false, false], tracker_first: Some(vec![0, 2]), tracker_later: Some(vec![1, 0]), ..base.clone() }, 12),
+        // outside end game (12 pieces): S and P both hold pieces 0 and 1, P announces them one by one
+        // with Have and may sit idle while S is asked; S may choke in the middle, which frees its
+        // piece while P announces the other one: the Have path has a choice to make. T holds the rest.
+        // (tie-breaks of the chooser are not enumerated here: ten-way ties would swamp the search)
+        (Swarm { label: "12pc-idle-holder-announces", piece_len: 5, files: vec![("f", 60)], owners: vec![own(12, &[0, 1]), own(12, &[0, 1]), own(12, &[2, 3, 4, 5, 6, 7, 8, 9, 10, 11])], may_close: vec![false, false, false], by_have: vec![false, true, false], with_choke: true, tie_breaks: false, ..base.clone() }, if thorough { 11 } else { 9 }),
         // multi-block pieces, multi-file layout with a boundary inside a piece and a zero-length file
         (Swarm { label: "2x16387-multifile", piece_len: 16387, files: vec![("a", 100), ("d/b", 0), ("c", 16387 * 2 - 100 - 7)], single: false, owners: vec![own(2, &[0, 1]), own(2, &[1])], may_close: vec![false, true], by_have: vec![false, false], with_segmentation: true, ..base.clone() }, 12),
     ];
